@@ -17,7 +17,17 @@ Contracts
   InterpreterAnalyzer.visit_Start (history clause, strong exception safety of the process global):
      ensures  on every exit edge Exceptions.dataset_output is None again (a failed run leaves no trace in later
               error messages)
-Refuted paths are replayed natively by injecting the fault at the same site into the real function.
+  every function reachable from run / run_sdmx / semantic_analysis that REBINDS a process-global (module attribute or
+  class attribute; enumerated by the shared-state scanner vc.pyshared that C17 uses) which reachable code READS
+  (general history clause, vc.pyhistory - a STRUCTURAL obligation on the AST, callee failures modelled as "any call may
+  raise any exception"; no path is executed):
+     ensures  the stored value does not survive a call that raises: the store lies inside a try whose FINALLY (not merely
+              an `except <SomeError>`) resets the location - in the function or at every call site up to the API entry -,
+              or every reachable read is dominated by a store of the same API call, or nothing reads the location.
+Refuted paths are replayed natively by injecting the fault at the same site into the real function; refuted store
+sites by a failing call on the real engine below the parser followed by probe calls whose outcome is compared with
+that of a fresh process (checks/_c16_history.py; sys.settrace fault injection right after the store when no call
+fails there by itself).
 """
 from __future__ import annotations
 
@@ -83,7 +93,10 @@ def main() -> None:  # noqa: C901
     chk = Check("C16", "proof", "exhaustive exceptional-path symbolic execution of the real configured_connection "
                 "(every fallible external forks into success/failure; with-body ends normally, with Exception or "
                 "with BaseException); resource acquire/release trace obligations per path; SMT for the database-path "
-                "clause; native fault-injection replay", min_obligations=6)
+                "clause; native fault-injection replay; history clause for every rebinding store of a process-global "
+                "reachable from the API (structural try/finally-reset or store-dominates-every-read obligations on the AST "
+                "over the vc.pyshared frames and receiver-exact call graph, vc.pyhistory), refuted sites replayed by a "
+                "failing call plus probe calls on the real engine", min_obligations=12)
     f = f"src/vtlengine/{REL}:configured_connection"
     chk.under_contract(f)
     eng, paths = explore_config()
@@ -165,6 +178,7 @@ def main() -> None:  # noqa: C901
 
     run_structure_obligations(chk)
     history_obligations(chk)
+    global_history_obligations(chk)
 
     chk.assume("exceptions arise only at call sites of fallible operations and inside the with-body (asynchronous "
                "exceptions between two statements of configured_connection are not modelled)")
@@ -273,6 +287,72 @@ def history_obligations(chk: Check) -> None:
         ob.status, ob.detail = UNDECIDED, f"{type(e).__name__}: {e}"
 
 
+HISTORY_ENTRIES = ("run", "run_sdmx", "semantic_analysis")
+HISTORY_CLAUSE = ("history clause: a value that this function stores into the process-global {loc} does not survive a call of "
+                  "run() / run_sdmx() / semantic_analysis() that raises (any exception class, at any later point): every "
+                  "store of a non-neutral value lies inside a try whose FINALLY resets the location (here or at every call "
+                  "site up to the API entry), or every read of the location that an API call can reach is dominated by a "
+                  "store of the same call, or nothing reachable reads it")
+
+
+def global_history_obligations(chk: Check) -> None:
+    """One obligation per (process-global location, function that rebinds it) reachable from the API entry points -
+    STRUCTURAL obligations on the AST (vc.pyhistory over the frames / call graph of vc.pyshared), not path exploration."""
+    from vc.pyhistory import History
+    from vc.pyshared import Program
+    api = "API/__init__.py"
+    guard = chk.ob(f"src/vtlengine/{api}::process-global-stores-enumerated", f"src/vtlengine/{api}",
+                   "the shared-state scanner sees the API entry points, resolves interpreter.visit(<Start>) to visit_Start and "
+                   "finds the known per-call globals among the rebinding stores (vacuity guard of the history clause)")
+    guard.backend = "pyhistory"
+    try:
+        prog = Program()
+        entries = [(api, e) for e in HISTORY_ENTRIES if (api, e) in prog.fns]
+        h = History(prog, entries)
+        sites = h.analyse()
+    except Exception as e:  # noqa: BLE001
+        guard.status, guard.detail = UNDECIDED, f"analysis failed: {type(e).__name__}: {e}"
+        return
+    locs = sorted({s.loc for s in sites})
+    expected = ["Exceptions/__init__.py:dataset_output", "ViralPropagation/__init__.py:_current_registry"]
+    missing = [x for x in expected if x not in locs]
+    if len(entries) < len(HISTORY_ENTRIES) or missing or not any("visit_Start" in n for n in h.notes):
+        guard.status = UNDECIDED
+        guard.detail = f"entries found {entries}; expected locations missing {missing}; dispatcher resolution {h.notes}"
+        return
+    guard.status = DISCHARGED
+    guard.detail = f"{len(h.reachable)} (function, receiver class) nodes reachable; {len(locs)} rebound locations; {h.notes}"
+    tracked = {s.loc: h.initial_value(s.loc) for s in sites}
+    summary: Dict[str, str] = {}
+    for s in sites:
+        rel, qn = s.fn
+        f = f"src/vtlengine/{rel}:{qn}"
+        short = s.loc.split(":", 1)[1]
+        chk.under_contract(f, "contract")
+        ob = chk.ob(f"{f}::{short}::no-trace-after-a-failed-call", f, HISTORY_CLAUSE.format(loc=s.loc))
+        ob.backend = "pyhistory(ast)"
+        summary[f"{s.loc} @ {rel}:{qn}"] = s.status
+        if s.status != "refuted":
+            ob.status, ob.detail = DISCHARGED, f"{s.status}: {s.why} (stores at lines {s.lines})"
+            continue
+        ob.status = REFUTED
+        ob.finding_key = f"history::{s.loc}@{rel}:{qn}"
+        ob.detail = s.why
+        ob.witness = {"location": s.loc, "store": f"{rel}:{s.first_store_line} in {qn}", "call_chain_to_the_store": s.chain[:8],
+                      "reads_not_preceded_by_a_store_of_the_same_call": s.unsafe_reads,
+                      "call_chain_to_such_a_read": s.unsafe_chain}
+        try:
+            from _c16_history import replay_site
+            ob.replayed, ob.replay_detail, wit = replay_site(s.loc, rel, qn, s.lines, tracked)
+            if wit:
+                ob.witness.update(wit)
+        except Exception as e:  # noqa: BLE001
+            ob.replayed, ob.replay_detail = None, f"replay harness error: {type(e).__name__}: {e}"
+    chk.extra["history_clause"] = {"entries": list(HISTORY_ENTRIES), "sites": summary,
+                                   "not_covered": "in-place mutations of shared containers (memo tables, SingletonMeta._instances, "
+                                                  "de_ruleset_elements, _initialized_connections) - see C17"}
+
+
 def replay_dataset_output() -> Tuple[Optional[bool], str]:
     core.boot(full=True)
     import vtlengine.AST as A
@@ -281,15 +361,31 @@ def replay_dataset_output() -> Tuple[Optional[bool], str]:
     kw = dict(line_start=1, column_start=1, line_stop=1, column_stop=1)
     bad = A.Start(children=[A.Assignment(left=A.VarID(value="DS_r", **kw), op=":=",
                                          right=A.VarID(value="DS_missing", **kw), **kw)], **kw)
-    EX.dataset_output = None
-    try:
-        InterpreterAnalyzer(datasets={}, scalars={}).visit(bad)
-        first = "no error"
-    except Exception as e:  # noqa: BLE001
-        first = f"{type(e).__name__}"
-    left = EX.dataset_output
-    msg = str(EX.SemanticError("0-1-1-6").args[0])
-    EX.dataset_output = None
+    class Injected(Exception):
+        """a failure of a class that no handler of the tree names"""
+
+    def boom(self: Any, node: Any) -> Any:
+        raise Injected("injected failure while visiting the statement")
+
+    left, first, msg = None, "", ""
+    # 1st: a statement that fails by itself (SemanticError); 2nd: the visit of the statement fails with another class
+    for inject in (False, True):
+        EX.dataset_output = None
+        saved = InterpreterAnalyzer.visit_Assignment
+        if inject:
+            InterpreterAnalyzer.visit_Assignment = boom          # type: ignore[method-assign]
+        try:
+            InterpreterAnalyzer(datasets={}, scalars={}).visit(bad)
+            first = "no error"
+        except Exception as e:  # noqa: BLE001
+            first = f"{type(e).__name__}"
+        finally:
+            InterpreterAnalyzer.visit_Assignment = saved         # type: ignore[method-assign]
+        left = EX.dataset_output
+        msg = str(EX.SemanticError("0-1-1-6").args[0])
+        EX.dataset_output = None
+        if left is not None:
+            break
     return left is not None, f"after a failing semantic pass ({first}) Exceptions.dataset_output = {left!r}; an " \
                              f"unrelated later error now reads: {msg!r}"
 
